@@ -38,6 +38,7 @@ type prover struct {
 	phiAlias      [][2]ssa.Value // non-integer phis standing for the edge value
 	noInvFor      *ssa.BasicBlock // do not assume loop invariants of this loop (entry-edge proofs)
 	invAdded      map[int]bool
+	entryMap      func(path string) (string, bool) // call-site specialisation: entry versions of captured variables -> the caller's variables
 }
 
 type bndEngine struct {
@@ -47,6 +48,8 @@ type bndEngine struct {
 	requires   map[string][]reqSpec
 	fieldFacts map[string]int64 // "Struct.field" -> lower bound (configuration assumptions)
 	lexerFuncs map[*ssa.Function]bool
+	sites      map[*ssa.Function][]*ssa.Call
+	otherUse   map[*ssa.Function]bool
 }
 
 type reqSpec struct {
@@ -174,6 +177,11 @@ func (p *prover) memKey(ld *ssa.UnOp) (string, bool) {
 	ver := p.mem.versionAt(ld, path)
 	if o, ok := p.override[path+"@"+ver]; ok {
 		ver = o
+	}
+	if ver == "e" && p.entryMap != nil {
+		if k, ok := p.entryMap(path); ok {
+			return k, true
+		}
 	}
 	return p.prefix + "M:" + path + "@" + ver, true
 }
@@ -896,6 +904,8 @@ func (p *prover) lenOf(v ssa.Value) linExpr {
 			} else {
 				eq(base.add(p.lenOf(x.Call.Args[1])), "len(append(s, t...)) = len(s)+len(t)")
 			}
+		} else if r, ok := p.resultLen(x, 0); ok {
+			eq(r, "length of the helper's result")
 		} else if cal := staticCallee(x); cal != nil {
 			p.eng.lenModel(p, x, cal, k)
 		}
@@ -922,6 +932,12 @@ func (p *prover) lenOf(v ssa.Value) linExpr {
 	case *ssa.Phi:
 		p.eng.phiLenInvariants(p, x, k)
 	case *ssa.Extract:
+		if c, isCall := x.Tuple.(*ssa.Call); isCall {
+			if r, ok := p.resultLen(c, x.Index); ok {
+				eq(r, "length of the helper's result")
+				break
+			}
+		}
 		p.eng.extractLenFacts(p, x, k)
 	case *ssa.Parameter:
 		p.requireLenFacts(x, k)
